@@ -399,6 +399,81 @@ def _reaches_header_without_def(cfg, blks, h, b, i, v):
     return False
 
 
+def r17_5(prog, rep, rid="R17.5"):
+    """A shift that can move a date forward in time — a positive number of days, or a business-day part whose direction is forward (that
+    includes `0B`: a weekend date goes to the Monday behind it) — can bring a date of the period *before* DTSTART's into range.  The yearly
+    and the monthly filler therefore start one period early for such shifts.  The look-back code in front of each expansion loop is
+    walked with the packed SHIFT fixed to every (days, business days, direction, zero-form) class: whenever the shift can move
+    forward, the cursor must stand earlier at the loop than it did before."""
+    from ..absw import AbsWalk, eval_in
+    from ..rules.fillers import _is_main_loop
+
+    def enc(d, b, inv, neg):
+        return ((d & 0xffff) << 16) | ((b & 0x3fff) << 2) | (inv << 1) | neg
+
+    def sx(v):
+        v &= 0xffffffff
+        return v - (1 << 32) if v & 0x80000000 else v
+    CLASSES = [("SHIFT=3", enc(3, 0, 0, 0), True), ("SHIFT=-3", enc(-3, 0, 0, 0), False), ("SHIFT=2B", enc(0, 2, 0, 0), True),
+               ("SHIFT=-2B", enc(0, 2, 0, 1), False), ("SHIFT=0B", enc(0, 0, 1, 0), True), ("SHIFT=-0B", enc(0, 0, 1, 1), False),
+               ("SHIFT=2B+", enc(0, 2, 1, 0), True), ("SHIFT=2B-", enc(0, 2, 1, 1), False), ("SHIFT=-1,0B", enc(-1, 0, 1, 0), True),
+               ("no SHIFT", 0, False)]
+    n = 0
+    for fname, cur in (("rrul_fill_yly", ("y",)), ("rrul_fill_mly", ("y", "m"))):
+        f = prog.fn(fname, "evrrul.c")
+        cfg = f.cfg
+        rr = f.params[2]["n"]
+        mains = [(h, b) for h, b in cfg.natural_loops().items() if _is_main_loop(f, h)]
+        if not mains:
+            raise AnalysisBroken("R17.5: %s has no expansion loop" % fname)
+        mh, mblks = max(mains, key=lambda t_: len(t_[1]))
+        # the look-back region: blocks outside the main loop that ask about the shift
+        SH = ("echs_shift_dvalue", "echs_shift_bvalue", "echs_shift_bday_p", "echs_shift_neg_p", "echs_shift_inv_p", "echs_shift_absval")
+        reg = [b for b in cfg.blocks if b not in mblks and any(
+            isinstance(e["x"], dict) and any(c.get("fn") in SH for c in calls(e["x"])) for e in cfg.blocks[b].elems)]
+        n += 1
+        key = "%s/looks-back-for-forward-shifts" % fname
+        if not reg:
+            rep.fail(rid, key, f.loc(), "%s does not look at the SHIFT in front of its expansion loop: a date moved forward into DTSTART's period "
+                     "from the one before is never produced" % fname)
+            continue
+        start = max(reg)    # clang numbers blocks backwards: the highest id comes first
+
+        def call_eval(c, store):
+            nm = c.get("fn")
+            if nm in ("bui31_has_bits_p", "bui63_has_bits_p"):
+                return 0        # a rule without BYMONTH: the month is not moved on to a listed one
+            if nm not in SH:
+                return None
+            sh = eval_in(store, cfg.resolve(c["a"][0]), f)
+            if sh is None:
+                return None
+            sh = sx(sh)
+            low = sh & 0xffff
+            return {"echs_shift_dvalue": sh >> 16, "echs_shift_bday_p": int(bool(low)), "echs_shift_neg_p": sh & 1, "echs_shift_inv_p": (sh >> 1) & 1,
+                    "echs_shift_bvalue": (low >> 2) if not (sh & 1) else -(low >> 2), "echs_shift_absval": low >> 2}[nm]
+        missed = []
+        for label, sh, fwd in CLASSES:
+            init = {"%s->shift" % rr: sx(sh), "y": 2023, "m": 1}
+            outs = []
+            w = AbsWalk(f, {l_["n"] for l_ in f.locals}, init=init, call_eval=call_eval, max_states=20000)
+            w.run(start_block=start, stop_at={mh}, on_exit=lambda st_: outs.append(tuple(st_.get(c_) for c_ in cur)))
+            if not outs or len(set(outs)) != 1 or None in outs[0]:
+                raise AnalysisBroken("R17.5: %s with %s: no single cursor at the expansion loop (%s)" % (fname, label, outs[:3]))
+            back = outs[0] < tuple({"y": 2023, "m": 1}[c_] for c_ in cur)
+            if fwd and not back:
+                missed.append(label)
+        if missed:
+            rep.fail(rid, key, f.loc(cfg.blocks[start].elems[0].get("line") if cfg.blocks[start].elems else None),
+                     "%s does not start a period early for %s although that shift can move a date forward: a date of the period before DTSTART's that "
+                     "the shift carries across the boundary (Saturday Dec 31 -> Monday Jan 2) is missing, and COUNT hands out one more at the far end"
+                     % (fname, ", ".join(missed)))
+        else:
+            rep.ok(rid, key, f.loc(), "starts a period early for every class of shift that can move forward (%d classes)" % len(CLASSES))
+    if n < 2:
+        rep.broken_("rule=%s expected the yearly and the monthly filler" % rid)
+
+
 def run(prog, rep, tier, snap):
     rep.rule("R17.1", "SHIFT bit layout: writer and all readers agree", 10)
     rep.call(r17_1, prog, rep)
@@ -408,4 +483,6 @@ def run(prog, rep, tier, snap):
     rep.call(r17_3, prog, rep)
     rep.rule("R17.4", "every BYEASTER offset is applied to a base set afresh in the loop", 1)
     rep.call(r17_4, prog, rep)
+    rep.rule("R17.5", "the yearly and monthly fillers start a period early for every shift that can move a date forward (value-fixed walk)", 2)
+    rep.call(r17_5, prog, rep)
 READY = True
